@@ -192,6 +192,42 @@ def run(ctx):
         ctx.corr("facade-t_eval-vs-whole-run-model", ok, dict(inp, worst_state_diff=worst, model_times=None if m is None else [float(v) for v in m[0]][:10]))
         ctx.count("facade-t_eval:" + inp["method"])
 
+    # arguments as scipy's solve_ivp documents them: a terminal event together with t_eval, first_step=None, an integer-typed y0
+    import scipy.integrate as _si
+    Am = np.array([[0.0, 1.0], [-1.0, 0.0]])
+    f_osc = lambda t, y: Am @ y
+    for (span, lvl) in [((0.0, 10.0), 0.0), ((0.0, -10.0), 0.0), ((1.0, 9.0), 0.3)]:
+        def ev_stop(t, y, lvl=lvl):
+            return y[0] - lvl
+        ev_stop.is_terminal = True
+        ev_stop.terminal = True
+        te = np.linspace(span[0], span[1], 11)
+        inp = dict(kind="facade-terminal-event", t_span=list(span), level=lvl, t_eval=te.tolist())
+        try:
+            r = de.solve_ivp(f_osc, span, np.array([1.0, 0.0]), t_eval=te, events=ev_stop, atol=1e-9, rtol=1e-9)
+            sref = _si.solve_ivp(f_osc, span, np.array([1.0, 0.0]), t_eval=te, events=ev_stop, atol=1e-9, rtol=1e-9)
+            rt = np.asarray(r.t, dtype=float).reshape(-1)
+            ok = len(rt) == len(sref.t) and bool(np.all(rt == np.asarray(sref.t))) and ("event" in str(r.status).lower())
+            ctx.oracle("t_eval-with-terminal-event", ok, dict(inp, returned=rt.tolist(), scipy=np.asarray(sref.t).tolist(), status=str(r.status)),
+                       key="facade-runs-past-terminal-event", what="with a terminal event solve_ivp returned the times %s (scipy: %s), status %r" % (np.round(rt, 4).tolist(), np.round(sref.t, 4).tolist(), str(r.status)))
+        except Exception as e:
+            ctx.oracle("facade-runs", False, inp, what="solve_ivp raised %r" % (e,))
+    try:
+        a = de.solve_ivp(f_osc, (0.0, 1.0), np.array([1.0, 0.0]), first_step=None)
+        b = de.solve_ivp(f_osc, (0.0, 1.0), np.array([1.0, 0.0]))
+        ctx.oracle("first_step-none-is-the-default", bool(np.array_equal(np.asarray(a.t), np.asarray(b.t)) and np.array_equal(np.asarray(a.y), np.asarray(b.y))),
+                   dict(kind="facade-first_step-none"), what="first_step=None differs from leaving first_step out")
+    except Exception as e:
+        ctx.oracle("first_step-none-is-the-default", False, dict(kind="facade-first_step-none"), what="solve_ivp(first_step=None) raised %r" % (e,))
+    try:
+        a = de.solve_ivp(f_osc, (0.0, 1.0), np.array([1, 0]))
+        b = de.solve_ivp(f_osc, (0.0, 1.0), np.array([1.0, 0.0]))
+        ya, yb = np.asarray(a.y, dtype=float), np.asarray(b.y, dtype=float)
+        ctx.oracle("integer-y0-is-promoted", ya.shape == yb.shape and bool(np.allclose(ya, yb, atol=1e-12)), dict(kind="facade-integer-y0", end=ya[:, -1].tolist(), expected=yb[:, -1].tolist(), dtype=str(np.asarray(a.y).dtype)),
+                   what="an integer-typed y0 gives %s at the end (float y0: %s), dtype %s" % (ya[:, -1].tolist(), yb[:, -1].tolist(), np.asarray(a.y).dtype))
+    except Exception as e:
+        ctx.oracle("integer-y0-is-promoted", False, dict(kind="facade-integer-y0"), what="raised %r" % (e,))
+
 
 def replay(rep):
     return False
